@@ -81,6 +81,7 @@ type verifRC struct {
 	closePark   chan struct{} // non-nil while a Close is stalled inside the underlying closer
 	closeParked bool
 	plain       bool // no more choices (harness cleanup)
+	noStall     bool // the closer does not take a while
 }
 
 func (r *verifRC) Read(p []byte) (int, error) {
@@ -100,7 +101,11 @@ func (r *verifRC) Close() error {
 	if r.plain {
 		return nil
 	}
-	mode := verifChoice(verifName("closeMode", r.closes), 3)
+	modes := 3
+	if r.noStall {
+		modes = 2
+	}
+	mode := verifChoice(verifName("closeMode", r.closes), modes)
 	r.closes++
 	switch mode {
 	case 1:
@@ -221,8 +226,7 @@ func verifC11Streamer(steps int, others int, twin bool) {
 	expired := false     // the idle timeout has struck
 	raceUnknown := false // Close and the timer were due at the same instant: either may have won
 	parkedReader := -1   // worker stalled inside the underlying Read
-	var pendingClosers []int
-	firstCloser := -1 // worker whose (stalled) Close is the releasing one
+	stalledCloser := -1  // worker whose Close (the releasing one) is stalled inside the underlying closer
 
 	observe := func() {
 		// idle expiry: exactly when `timeout` has elapsed since the last activity
@@ -367,54 +371,58 @@ func verifC11Streamer(steps int, others int, twin bool) {
 			done0 := w.done
 			first := !released
 			race := op.kind == kRaceClose
+			during := rc.closeParked // a release is in progress (its underlying close takes a while)
 			if race {
 				// no settling between the clock reaching the instant and the Close: the timer
 				// callback and the Close run in either order
+				rc.noStall = true
 				time.Sleep(time.Duration(lastAct + int64(timeout) - now()))
 			}
 			w.cmd <- vC11Close
+			if during {
+				// ... and the underlying closer finishes while this Close is on its way
+				// (a goroutine waiting for the streamer's mutex cannot be waited for natively)
+				rc.closePark <- struct{}{}
+			}
 			verifSettle()
-			if race {
+			rc.noStall = false
+			switch {
+			case race:
 				verifReach("close-races-expiry")
 				userClosed, raceUnknown = true, true
-			}
-			if w.done == done0+1 {
-				switch {
-				case race:
-					verifAssert("C11-racing-close-result", w.err == nil || w.err == rc.closeErr)
-				case first:
-					verifReach("closed-by-user")
-					userClosed = true
-					verifAssert("C11-first-close-returns-underlying-result", w.err == rc.closeErr)
-				default:
-					verifReach("close-after-release")
-					verifAssert("C11-repeated-close-is-a-noop", w.err == nil)
+				verifAssert("C11-racing-close-returns", w.done == done0+1)
+				verifAssert("C11-racing-close-result", w.err == nil || w.err == rc.closeErr)
+			case during:
+				verifReach("close-during-release")
+				verifAssert("C11-close-during-release-returns", w.done == done0+1 && !rc.closeParked)
+				verifAssert("C11-repeated-close-is-a-noop", w.err == nil)
+				if stalledCloser >= 0 {
+					verifAssert("C11-stalled-close-completes", !ws[stalledCloser].busy)
+					verifAssert("C11-first-close-returns-underlying-result", ws[stalledCloser].err == rc.closeErr)
+					stalledCloser = -1
 				}
-			} else {
-				// it may only be waiting for the underlying closer (its own call, or the one made
-				// by whoever is releasing the stream right now)
-				verifAssert("C11-close-waits-only-for-close-in-progress", rc.closeParked)
-				if first && !race {
-					userClosed = true
-					firstCloser = op.g
-				}
-				if !first {
-					verifReach("close-waits-for-release-in-progress")
-				}
-				pendingClosers = append(pendingClosers, op.g)
+			case w.done != done0+1:
+				// only the releasing Close may take a while: as long as the underlying closer does
+				verifReach("close-stalled-in-closer")
+				verifAssert("C11-close-waits-only-for-underlying-closer", first && rc.closeParked)
+				userClosed = true
+				stalledCloser = op.g
+			case first:
+				verifReach("closed-by-user")
+				userClosed = true
+				verifAssert("C11-first-close-returns-underlying-result", w.err == rc.closeErr)
+			default:
+				verifReach("close-after-release")
+				verifAssert("C11-repeated-close-is-a-noop", w.err == nil)
 			}
 		case kUnstallClose:
 			rc.closePark <- struct{}{}
 			verifSettle()
-			for _, pg := range pendingClosers {
-				verifAssert("C11-pending-close-completes", !ws[pg].busy)
-				if pg == firstCloser {
-					verifAssert("C11-first-close-returns-underlying-result", ws[pg].err == rc.closeErr)
-				} else if !raceUnknown {
-					verifAssert("C11-repeated-close-is-a-noop", ws[pg].err == nil)
-				}
+			if stalledCloser >= 0 {
+				verifAssert("C11-stalled-close-completes", !ws[stalledCloser].busy)
+				verifAssert("C11-first-close-returns-underlying-result", ws[stalledCloser].err == rc.closeErr)
+				stalledCloser = -1
 			}
-			pendingClosers, firstCloser = nil, -1
 		case kSleep:
 			time.Sleep(time.Duration(int64(op.arg) * verifUnit))
 			verifSettle()
@@ -786,7 +794,7 @@ func verifReapInternal(s *Store) (int, int, error) {
 		return 0, 0, nil
 	}
 	if last != len(w.snaps)-1 {
-		panic("verif: reap worlds have no incremental snapshots")
+		return 0, 0, verifErrInjected // consolidation needs SQLite: not part of these worlds
 	}
 	w.snaps = w.snaps[last:]
 	return last, 0, nil
